@@ -6,6 +6,7 @@ CONSTANTS
   D = 0
   MaxEvents = 3
   MaxFails = 0
+  Extra = "none"
   Backoff = FALSE
   Closed = FALSE
   ObserveCb = TRUE
